@@ -111,6 +111,11 @@ def cases(tier):
                                                 continue
                                             yield {'k': 'amuset', 'd': d, 'd2': d2, 'm': m, 'ws': [list(w) for w in ws], 'b': bg, 'rw': rw,
                                                    'rel': rel, 'mr': mr, 'nev': nev, 'ro': ro}
+                                            if mr == 'inf' and nev == 'inf' and ro == 'eigenfunctionevals':
+                                                # diffusion switched off at every other snapshot (multiplicative noise that vanishes in
+                                                # part of the domain): those snapshots still carry drift information
+                                                yield {'k': 'amuset', 'd': d, 'd2': d2, 'm': m, 'ws': [list(w) for w in ws], 'b': bg, 'rw': rw,
+                                                       'rel': rel, 'mr': mr, 'nev': nev, 'ro': ro, 'sigzero': True}
                             if ws[0][1] == 2 and len(ws) == 2 and m >= 6:
                                 # the same list object (same Function objects) in every mode
                                 for ro in ('eigenfunctionevals', 'eigentensors'):
@@ -196,7 +201,10 @@ def run_case(case, seed):
         x = rng.integers(-2, 3, (d, m)) + 5 * np.arange(m)[None, :] * (np.arange(d)[:, None] == 0)     # integer dtype, distinct snapshots
     x0 = x.copy()
     gscale = 1e-10 if case.get('var') == 'tiny' else 1.0
-    sigma = np.sqrt(gscale) * rng.standard_normal((d, d2, m)); s0 = sigma.copy()
+    sigma = np.sqrt(gscale) * rng.standard_normal((d, d2, m))
+    if case.get('sigzero'):
+        sigma[:, :, ::2] = 0.0
+    s0 = sigma.copy()
     b = gscale * rng.standard_normal((d, m)) if case['b'] else None
     if case['b'] == 'zero':
         b = np.zeros((d, m))            # a driftless diffusion given explicitly: still the non-reversible estimator
